@@ -752,6 +752,20 @@ class Folder:
                 mem = obj.cls.enum_members()
                 if name in mem:
                     return EV(obj.cls, name, mem[name])
+                # attributes set by the enumeration's own __init__(self, *value): evaluated once per member
+                ic, init = self._find(obj.cls, '__init__')
+                if init is not None:
+                    cache = self.__dict__.setdefault('_enum_attr_cache', {})
+                    key_ = (obj.cls.name, obj.name)
+                    if key_ not in cache:
+                        tmp = DV(obj.cls, {})
+                        self._fresh.add(id(tmp))
+                        self._keep.append(tmp)
+                        a_ = list(obj.value) if isinstance(obj.value, tuple) else [obj.value]
+                        self._invoke(ic.module, ic, init, tmp, a_, {})
+                        cache[key_] = dict(tmp.fields)
+                    if name in cache[key_]:
+                        return cache[key_][name]
                 raise Unsupported(f'{obj.cls.name}.{name}')
             if c.method_kind(name) == 'property':
                 return self._invoke(c.module, c, fn, obj, [], {})
@@ -763,6 +777,14 @@ class Folder:
             if name == '__class__':
                 return ClsRef(obj.cls)
             c, fn = self._find(obj.cls, name)
+            if fn is None and (obj.cls.is_namedtuple or obj.cls.is_dataclass) and name in ('_asdict', '_replace', '_fields'):
+                order_ = [n for n in obj.cls.order if n in obj.cls.annots]
+                if name == '_fields':
+                    return tuple(order_)
+                if name == '_asdict' and obj.cls.is_namedtuple:
+                    return ('pyfunc', lambda: {n: obj.fields[n] for n in order_ if n in obj.fields})
+                if name == '_replace' and obj.cls.is_namedtuple:
+                    return ('pyfunc', lambda **kw_: DV(obj.cls, {**obj.fields, **kw_}))
             if fn is None:
                 for cc in self.repo.mro(obj.cls):
                     if name in cc.assigns:
@@ -1251,6 +1273,10 @@ class Folder:
             raise FoldRaise(type(ex).__name__, str(ex))
 
     def _truth(self, v) -> bool:
+        if isinstance(v, EV) and v.cls.enum_kind in ('Flag', 'IntFlag', 'IntEnum') and isinstance(v.value, int) and self._find(v.cls, '__bool__')[1] is None:
+            return v.value != 0
+        if isinstance(v, EV) and v.cls.enum_kind == 'StrEnum' and isinstance(v.value, str) and self._find(v.cls, '__bool__')[1] is None:
+            return v.value != ''
         if isinstance(v, (EV, DV)):
             # truth value of an object of the subject: __bool__, else __len__ != 0, else true
             for dn in ('__bool__', '__len__'):
@@ -1365,7 +1391,64 @@ class Folder:
             return ('builtin', name)
         raise Unsupported(f'name {name}')
 
+    BINOP_DUNDER = {ast.Add: 'add', ast.Sub: 'sub', ast.Mult: 'mul', ast.FloorDiv: 'floordiv', ast.Mod: 'mod', ast.BitOr: 'or', ast.BitAnd: 'and',
+                    ast.BitXor: 'xor', ast.Div: 'truediv', ast.Pow: 'pow', ast.LShift: 'lshift', ast.RShift: 'rshift', ast.MatMult: 'matmul'}
+
+    def _flag(self, ci, value: int) -> EV:
+        """The member of a Flag class with this value: a declared member, else the composite of the declared single-bit members."""
+        mem = ci.enum_members()
+        for n_, v_ in mem.items():
+            if v_ == value:
+                return EV(ci, n_, v_)
+        parts = [n_ for n_, v_ in mem.items() if isinstance(v_, int) and v_ and (v_ & (v_ - 1)) == 0 and value & v_]
+        covered = 0
+        for n_ in parts:
+            covered |= mem[n_]
+        if covered != value:
+            raise FoldRaise('ValueError', f'{value} is not a valid {ci.name}')
+        return EV(ci, '|'.join(parts), value)
+
+    def _enum_num(self, v):
+        """The number an enum member stands for in arithmetic (IntEnum / IntFlag), else None."""
+        if isinstance(v, EV) and v.cls.enum_kind in ('IntEnum', 'IntFlag') and isinstance(v.value, int):
+            return v.value
+        return None
+
     def _binop(self, op, a, b):
+        name = self.BINOP_DUNDER.get(type(op))
+        # objects of the subject: their own operator methods
+        if name is not None and (isinstance(a, DV) or isinstance(b, DV)):
+            for recv, other, dn in ((a, b, f'__{name}__'), (b, a, f'__r{name}__')):
+                if isinstance(recv, DV):
+                    c_, fn_ = self._find(recv.cls, dn)
+                    if fn_ is not None:
+                        return self._invoke(c_.module, c_, fn_, recv, [other], {})
+            raise FoldRaise('TypeError', f'unsupported operand type(s) for {name}')
+        if isinstance(a, EV) or isinstance(b, EV):
+            ka = a.cls.enum_kind if isinstance(a, EV) else None
+            kb = b.cls.enum_kind if isinstance(b, EV) else None
+            # user-defined operator on the enum class
+            for recv, other, dn in ((a, b, f'__{name}__'), (b, a, f'__r{name}__')):
+                if isinstance(recv, EV) and name is not None:
+                    c_, fn_ = self._find(recv.cls, dn)
+                    if fn_ is not None:
+                        return self._invoke(c_.module, c_, fn_, recv, [other], {})
+            if isinstance(op, (ast.BitOr, ast.BitAnd, ast.BitXor)) and (ka in ('Flag', 'IntFlag') or kb in ('Flag', 'IntFlag')):
+                fe = a if ka in ('Flag', 'IntFlag') else b
+                oth = b if fe is a else a
+                if isinstance(oth, EV) and oth.cls is fe.cls:
+                    ov = oth.value
+                elif fe.cls.enum_kind == 'IntFlag' and isinstance(oth, int) and not isinstance(oth, bool):
+                    ov = oth
+                else:
+                    raise FoldRaise('TypeError', f'unsupported operand type(s) for {name}: flags of different classes')
+                val = fe.value | ov if isinstance(op, ast.BitOr) else fe.value & ov if isinstance(op, ast.BitAnd) else fe.value ^ ov
+                return self._flag(fe.cls, val)
+            na = self._enum_num(a) if isinstance(a, EV) else a
+            nb = self._enum_num(b) if isinstance(b, EV) else b
+            if na is None or nb is None or isinstance(na, EV) or isinstance(nb, EV):
+                raise FoldRaise('TypeError', f'unsupported operand type(s) for {name}: enum member')
+            a, b = na, nb
         try:
             if isinstance(op, ast.Add):
                 return a + b
@@ -1398,16 +1481,41 @@ class Folder:
             return self._same(a, b)
         if isinstance(op, ast.IsNot):
             return not self._same(a, b)
+        if isinstance(op, (ast.Eq, ast.NotEq)) and (isinstance(a, EV) or isinstance(b, EV)) and not (isinstance(a, EV) and isinstance(b, EV)):
+            # IntEnum / IntFlag / StrEnum members equal their values
+            ev_, ot_ = (a, b) if isinstance(a, EV) else (b, a)
+            if ev_.cls.enum_kind in ('IntEnum', 'IntFlag', 'StrEnum') and isinstance(ot_, (int, str)) and not isinstance(ot_, bool):
+                r_ = ev_.value == ot_
+                return r_ if isinstance(op, ast.Eq) else not r_
+        if isinstance(op, (ast.Eq, ast.NotEq)) and isinstance(a, DV):
+            c_, fn_ = self._find(a.cls, '__eq__' if isinstance(op, ast.Eq) else '__ne__')
+            if fn_ is not None:
+                return self._invoke(c_.module, c_, fn_, a, [b], {})
+            c_, fn_ = self._find(a.cls, '__eq__') if isinstance(op, ast.NotEq) else (None, None)
+            if fn_ is not None:
+                return not self._truth(self._invoke(c_.module, c_, fn_, a, [b], {}))
         if isinstance(op, ast.Eq):
             return a == b
         if isinstance(op, ast.NotEq):
             return a != b
+        if isinstance(op, (ast.In, ast.NotIn)) and isinstance(a, EV) and isinstance(b, EV) and a.cls is b.cls and a.cls.enum_kind in ('Flag', 'IntFlag'):
+            r = (a.value & b.value) == a.value
+            return r if isinstance(op, ast.In) else not r
+        if isinstance(op, (ast.In, ast.NotIn)) and isinstance(b, DV):
+            c_, fn_ = self._find(b.cls, '__contains__')
+            if fn_ is not None:
+                r = self._truth(self._invoke(c_.module, c_, fn_, b, [a], {}))
+                return r if isinstance(op, ast.In) else not r
         if isinstance(op, (ast.In, ast.NotIn)):
             try:
                 r = a in b
             except TypeError as e:
                 raise FoldRaise('TypeError', str(e))
             return r if isinstance(op, ast.In) else not r
+        if isinstance(a, EV) or isinstance(b, EV):
+            na_, nb_ = (self._enum_num(a) if isinstance(a, EV) else a), (self._enum_num(b) if isinstance(b, EV) else b)
+            if isinstance(na_, (int, float)) and isinstance(nb_, (int, float)):
+                a, b = na_, nb_
         for v in (a, b):
             if isinstance(v, (EV, DV, ClsRef)) or v is None:
                 if isinstance(a, DV) and isinstance(b, DV):
@@ -1492,8 +1600,34 @@ class Folder:
             v = self._eval(e.operand, env, mod, ci)
             if isinstance(e.op, ast.Not):
                 return not self._truth(v)
-            if isinstance(e.op, ast.USub):
-                return -v
+            if isinstance(v, DV):
+                dn_ = {ast.USub: '__neg__', ast.UAdd: '__pos__', ast.Invert: '__invert__'}[type(e.op)]
+                c_, fn_ = self._find(v.cls, dn_)
+                if fn_ is None:
+                    raise FoldRaise('TypeError', f'bad operand type for unary operator: {v.cls.name}')
+                return self._invoke(c_.module, c_, fn_, v, [], {})
+            if isinstance(v, EV):
+                if isinstance(e.op, ast.Invert) and v.cls.enum_kind in ('Flag', 'IntFlag'):
+                    allbits = 0
+                    for x_ in v.cls.enum_members().values():
+                        if isinstance(x_, int):
+                            allbits |= x_
+                    return self._flag(v.cls, allbits & ~v.value)
+                nv_ = self._enum_num(v)
+                if nv_ is None:
+                    raise FoldRaise('TypeError', 'bad operand type for unary operator: enum member')
+                v = nv_
+            try:
+                if isinstance(e.op, ast.USub):
+                    return -v
+                if isinstance(e.op, ast.UAdd):
+                    return +v
+                if isinstance(e.op, ast.Invert):
+                    return ~v
+            except TypeError as ex_:
+                if _has_internal([v]):
+                    raise Unsupported(f'unary operator on an analyser object: {ex_}')
+                raise FoldRaise('TypeError', str(ex_))
             raise Unsupported('unary')
         if isinstance(e, ast.BinOp):
             return self._binop(e.op, self._eval(e.left, env, mod, ci), self._eval(e.right, env, mod, ci))
